@@ -34,9 +34,18 @@ def unsignedValue (bs : List Nat) : Option Nat :=
 def signExtend (w : Nat) (p : Nat) : Int :=
   if p % 2 ^ w < 2 ^ (w - 1) then (p % 2 ^ w : Nat) else ((p % 2 ^ w : Nat) : Int) - (2 ^ w : Nat)
 
-/-- signed value of an n-byte item: the payload sign-extended from bit 7n-1 (n < 5);
-    for n = 5 the low 32 bits as two's complement, defined when payload bits 32..34 are a
-    sign extension of bit 31. -/
+/-- signed value of an n-byte item: the payload sign-extended from bit 7n-1 (n < 5).
+    For n = 5 the payload has 35 bits and the value is the low 32 bits read as two's complement
+    (`signExtend 32 p`).  It is DEFINED when the three surplus bits 32..34 are all 0 (`p < 2^32`)
+    or all 1 together with bit 31 (`2^35 - 2^31 ≤ p`), and undefined otherwise.  Note that the
+    first case includes `2^31 ≤ p < 2^32` (bit 31 set, surplus bits 0), which is NOT a sign
+    extension of bit 31: a 35-bit two's-complement reading would give the positive number `p`,
+    this definition gives the wrapped negative `p - 2^32`.  That is a choice, made to follow what
+    decoders do: the DEX format document says sleb128 encodes 32-bit quantities and leaves the bits
+    above 32 of a five-byte item unspecified; androguard (like libdex's `readSignedLeb128`, which
+    keeps the low 32 bits of `int result`) truncates to 32 bits, so the surplus bits of such an
+    item are ignored rather than judged.  Encoders never produce these items for a 32-bit value
+    (the canonical five-byte form of a negative number has the surplus bits set). -/
 def signedValue (bs : List Nat) : Option Int :=
   let n := bs.length
   let p := payload bs
